@@ -1,4 +1,5 @@
 CONSTANTS
+Deep = 0
 Mutant = 1
 INIT Init
 NEXT Next
